@@ -1956,6 +1956,9 @@ impl<'s> Semantics<'s> {
 
             if src.bits() > dst.bits() {
                 src = Expr::trun(dst.bits(), src)?;
+            } else if src.bits() < dst.bits() {
+                // a narrower effective address (address-size prefix) is zero-extended
+                src = Expr::zext(dst.bits(), src)?;
             }
 
             dst.set(block, src)?;
